@@ -158,6 +158,13 @@ def run_property(modname, tier, seed=0):
         for lab in h.labels:
             tasks.append(("reach", h, lab))
     customs = [c for c in getattr(mod, "CUSTOM", [])]
+    if os.environ.get("VERIF_DRY") == "1":
+        # machinery smoke test (tools/smoke.sh): shard generation, vector validation in both worlds
+        # and the known-finding witnesses only; no solver task is run and nothing is claimed
+        lines_dry = "dry run: %d solver tasks and %d custom tasks not run" % (len(tasks), len(customs))
+        tasks, customs = [], []
+    else:
+        lines_dry = None
 
     results = []
     lines = []
@@ -178,6 +185,8 @@ def run_property(modname, tier, seed=0):
     violations = []
     harness_errors = []
     known_lines = []
+    if lines_dry:
+        lines.append(lines_dry)
 
     # known findings: replay the recorded witness against the current tree
     for k in open_known:
